@@ -278,8 +278,11 @@ func subPingPong() mon.Sub {
 }
 
 var (
-	validReasons   = [][]byte{nil, []byte("bye"), []byte("€ going away \U0001F600")}
-	invalidReasons = [][]byte{{0xff}, {'o', 'k', 0xc3}, {0xed, 0xa0, 0x80}}
+	// valid reasons include the characters a hand-written validator trips over: U+FFFD itself (what a decoder
+	// returns for garbage, but also a character a peer may send), the first and last code points of each encoded
+	// length, non-characters, NUL
+	validReasons = [][]byte{nil, []byte("bye"), []byte("€ going away \U0001F600"), []byte("sanitised \uFFFD text"), []byte("\uFFFD"), []byte("\u0080\u07FF\u0800\uD7FF\uE000\uFFFF\U00010000\U0010FFFF"), []byte("nul \x00 inside"), []byte("\uFEFFbom")}
+	invalidReasons = [][]byte{{0xff}, {'o', 'k', 0xc3}, {0xed, 0xa0, 0x80}, {0xc0, 0xaf}, {0xf4, 0x90, 0x80, 0x80}, {'a', 0xef, 0xbf}}
 )
 
 // checkClose decides one close exchange.
@@ -414,7 +417,7 @@ func subCloseAllCodes() mon.Sub {
 			plans := xport.Plans(c.Rng.Int63(), nil)
 			for lo := 0; lo < 256; lo++ {
 				code := uint16(c.I%256)<<8 | uint16(lo)
-				for ri, r := range [][]byte{validReasons[lo%3], invalidReasons[lo%3]} {
+				for ri, r := range [][]byte{validReasons[(lo+c.I)%len(validReasons)], invalidReasons[(lo+c.I)%len(invalidReasons)]} {
 					payload := append([]byte{byte(code >> 8), byte(code)}, r...)
 					entry := "Handle"
 					if c.Tier == "thorough" {
@@ -451,7 +454,7 @@ func subCloseEntries() mon.Sub {
 					return
 				}
 				for _, code := range interesting {
-					for _, r := range [][]byte{nil, validReasons[2], invalidReasons[1]} {
+					for _, r := range [][]byte{nil, validReasons[2+int(code)%(len(validReasons)-2)], invalidReasons[int(code)%len(invalidReasons)]} {
 						if !checkClose(c, entry, side, append([]byte{byte(code >> 8), byte(code)}, r...), plans[int(code)%len(plans)]) {
 							return
 						}
@@ -471,9 +474,9 @@ func subCloseEntries() mon.Sub {
 				var r []byte
 				switch c.Rng.Intn(3) {
 				case 1:
-					r = validReasons[1+c.Rng.Intn(2)]
+					r = validReasons[1+c.Rng.Intn(len(validReasons)-1)]
 				case 2:
-					r = invalidReasons[c.Rng.Intn(3)]
+					r = invalidReasons[c.Rng.Intn(len(invalidReasons))]
 				}
 				if !checkClose(c, entry, side, append([]byte{byte(code >> 8), byte(code)}, r...), plans[c.Rng.Intn(len(plans))]) {
 					return
